@@ -22,17 +22,6 @@ package cty
 //@   ensures[C04] marks_kept: (forall ((k Any)) (! (=> (select (marks_of val) k) (select (marks_of result) k)) :pattern ((select (marks_of result) k))))
 //@   ensures[C06] wf: (wf_deep result)
 //
-// RefineNotNull on an unknown boolean keeps it an unknown boolean (booleans only track nullness);
-// in general it keeps type and marks and returns a known value unchanged. (Assumed here; the
-// refinement builder is C05's subject.)
-//@ func (cty.Value).RefineNotNull
-//@   trusted
-//@   ensures (and (= (vty result) (vty v)) (= (marks_of result) (marks_of v)) (wf_deep result))
-//@   requires (not (and (is_known v) (is_null v)))
-//@   ensures (=> (is_known v) (= result v))
-//@   ensures (not (is_null result))
-//@   ensures (=> (and (is_bool_ty (vty v)) (not (is_known v))) (not (is_known result)))
-//
 //@ func (cty.Value).HasIndex
 //@   tags C02 C04
 //@   requires (and (wf_deep val) (wf_deep key))
